@@ -19,15 +19,15 @@ import (
 
 type c12Case struct {
 	Shape   int    `json:"shape"`
-	Second  bool   `json:"second"`             // fault on the second render of the same Msg (boundaries cached)
-	SinkAt  int    `json:"sink_at"`            // sink fails once this many bytes were accepted (-1 = never)
-	Style   int    `json:"style"`              // 0 accepts the prefix then errors, 1 rejects the whole write, 2 accepts the prefix and reports no error for that write (every later write is refused), 3 takes the whole write and reports an error, 4 drops the tail of one write silently and goes on accepting, 5 refuses one write and works again afterwards
-	Prod    string `json:"prod"`               // producer that fails ("" = none)
-	ProdHow int    `json:"prod_how"`           // 1 before data, 2 after half, 3 after all data
+	Second  bool   `json:"second"`   // fault on the second render of the same Msg (boundaries cached)
+	SinkAt  int    `json:"sink_at"`  // sink fails once this many bytes were accepted (-1 = never)
+	Style   int    `json:"style"`    // 0 accepts the prefix then errors, 1 rejects the whole write, 2 accepts the prefix and reports no error for that write (every later write is refused), 3 takes the whole write and reports an error, 4 drops the tail of one write silently and goes on accepting, 5 refuses one write and works again afterwards
+	Prod    string `json:"prod"`     // producer that fails ("" = none)
+	ProdHow int    `json:"prod_how"` // 1 before data, 2 after half, 3 after all data
 	// ProdOnce: the producer fails only the FIRST time it is called during the render and works on later calls (a
 	// signed message calls every producer twice: once for the digest, once for the output)
 	ProdOnce bool `json:"prod_once,omitempty"`
-	ErrKind int    `json:"err_kind,omitempty"` // which error value the failing producer returns (index into c12Errs)
+	ErrKind  int  `json:"err_kind,omitempty"` // which error value the failing producer returns (index into c12Errs)
 	// File > 0: the file-based entry points — 1 WriteToFile("/dev/full") (every write fails with ENOSPC), 2 WriteToFile
 	// into a directory that does not exist, 3 WriteToFile to a regular file while producer Prod fails, 4 WriteToTempFile
 	// while producer Prod fails
@@ -77,6 +77,10 @@ func c12Shapes() []mb.Msg {
 		{Parts: []mb.Part{p("binary")}},                                                                               // 22
 		{Attach: []mb.File{{Name: "only.bin", Content: c12Bin, Enc: "binary"}}},                                       // 23
 		{Parts: []mb.Part{p("QP-mixed-case"), h}, Attach: []mb.File{{Name: "a.bin", Content: c12Bin, Enc: "binary"}}}, // 24
+		// PGP/MIME: go-mail only provides the multipart around the caller's parts
+		{PGP: 1, Parts: []mb.Part{{Type: "application/pgp-encrypted", Content: []byte("Version: 1\r\n"), Enc: "usascii"}, {Type: "application/octet-stream", Content: c12Text, Enc: "usascii"}}},                // 25
+		{PGP: 2, Parts: []mb.Part{p(""), {Type: "application/pgp-signature", Content: c12Text, Enc: "usascii"}}},                                                                                                // 26
+		{PGP: 1, Parts: []mb.Part{{Type: "application/pgp-encrypted", Content: []byte("Version: 1\r\n"), Enc: "usascii"}, {Type: "application/octet-stream", Content: c12Text}}, Attach: []mb.File{f("a.bin")}}, // 27
 	}
 }
 
@@ -300,6 +304,9 @@ func c12ShapeClass(s mb.Msg) string {
 	}
 	if s.Recycle > 0 {
 		c = append(c, "recycled")
+	}
+	if s.PGP > 0 {
+		c = append(c, "pgp")
 	}
 	return strings.Join(c, "+")
 }
